@@ -17,9 +17,9 @@
  3. code -> spec: long seeded random runs (hundreds of Messages, random segmentation, 0-byte and 1-byte results, one byte at a time),
     GwAbs monitor on all of them; the event logs of some are validated by TLC against GwAbs (GwAbsTrace, every gateway type) and, call by
     call with the real constants, against GwBinaryImpl (GwBinaryTrace).
- 4. directed cases of the open known findings F12 (empty chunk hides the rest), F41 (templating receiver keeps its old inflater when the
-    sender's zlib level changes) and F42 (two layouts with the same template id: the second Message arrives altered); F41 and F42 were found
-    by this check.
+ 4. directed cases of the open known findings F12 (empty chunk hides the rest) and F42 (two layouts with the same template id: the second
+    Message arrives altered) and of the repaired F41 (templating receiver kept its old inflater when the sender's zlib level changed);
+    F41 and F42 were found by this check.
 """
 import concurrent.futures as cf, copy, json, os, re, threading, time
 import vlib, pathcover
@@ -179,10 +179,9 @@ def _run(v, tier, seed):
     notes["f12_reproduced"] = s.get("f12_reproduced"); notes["f41_reproduced"] = s.get("f41_reproduced"); notes["f42_reproduced"] = s.get("f42_reproduced")
     # F42 (template id collision): while it reproduces, the random runs do not queue colliding pairs on templating connections
     henv_box[0] = None if s.get("f42_reproduced") else {"C03_ALLOW_TEMPLATE_COLLISIONS": "1"}
-    # sender-side zlib level changes while the connection is up: the plain gateway always, the templating one once F41 is repaired
+    # sender-side zlib level changes while the connection is up (F41, repaired in 3fb55a8, was found with these: a reappearance is a VIOLATION)
     groups = [list(g) for g in GW_GROUPS]
-    groups[1].append("bin_lvl")
-    if not s.get("f41_reproduced"): groups[2].append("tpl_lvl")
+    groups[1].append("bin_lvl"); groups[2].append("tpl_lvl")
     for r in vlib.read_ndjson(rep):
         if not r.get("summary"): samples.append({"kind": "directed case", "case": r.get("case"), "chunks": r.get("chunks"), "bytes_queued": r.get("bytes_queued"), "bytes_handed_over": r.get("bytes_handed_over"), "reproduced": r.get("reproduced")})
 
@@ -398,8 +397,8 @@ def _run(v, tier, seed):
         J.append(ex.submit(mc, "GwCodecHistory", codec_cfg("MC_codec", levels=(6, 9) if quick else (1, 6, 9), msgs=5), "GwCodecHistory, receiver by level, dependent frames, level changes", ["SetEncoding", "Produce", "Consume"], 1, 900))
         if not quick:
             J.append(ex.submit(mc, "GwCodecHistory", codec_cfg("MC_codec_i", levels=(6, 9), msgs=5, indep=True), "GwCodecHistory, receiver by level, independent frames", ["SetEncoding", "Produce", "Consume"], 1, 900))
-            J.append(ex.submit(mc, "GwCodecHistory", codec_cfg("MC_codec_any1", levels=(6,), msgs=6, receiver="any_level"), "GwCodecHistory, receiver GetReceiveCodec() as coded, ONE zlib level (why the fixed-encoding configurations are unaffected by F41)", ["SetEncoding", "Produce", "Consume"], 1, 900))
-            RJ.append(ex.submit(reach, "GwCodecHistory", codec_cfg("Reach_codec_F41", receiver="any_level", invs=["HistoryInSync"]), "HistoryInSync", "GwCodecHistory GetReceiveCodec() as coded with two levels = known finding F41"))
+            J.append(ex.submit(mc, "GwCodecHistory", codec_cfg("MC_codec_any1", levels=(6,), msgs=6, receiver="any_level"), "GwCodecHistory, receiver that maps every level to one codec object, ONE zlib level (why the fixed-encoding configurations never showed F41)", ["SetEncoding", "Produce", "Consume"], 1, 900))
+            RJ.append(ex.submit(reach, "GwCodecHistory", codec_cfg("Reach_codec_F41", receiver="any_level", invs=["HistoryInSync"]), "HistoryInSync", "GwCodecHistory receiver that maps every level to one codec object, two levels (= F41 before its repair)"))
             RJ.append(ex.submit(reach, "GwCodecHistory", codec_cfg("Reach_codec_nodr", levels=(6,), indep=True, bug="no_deflate_reset", invs=["HistoryInSync"]), "HistoryInSync", "GwCodecHistory no_deflate_reset"))
             RJ.append(ex.submit(reach, "GwCodecHistory", codec_cfg("Reach_codec_noir", levels=(6,), indep=True, bug="no_inflate_reset", invs=["HistoryInSync"]), "HistoryInSync", "GwCodecHistory no_inflate_reset"))
         # vacuity: every invariant fails on a wrong variant (quick: one or two per specification, thorough: all)
@@ -560,10 +559,9 @@ def _run(v, tier, seed):
            "samples": samples[:10]}
     assumptions = ["the transport is a reliable byte stream (no loss, duplication, reordering or corruption of bytes: hostile bytes are property C02, packet transports C12); it may deliver any number of bytes per call, including 0",
                    "byte identity in GwBinaryImpl is the position in the sender's output stream; content-dependent encodings (zlib history, templates) are bound by comparing the flattened bytes of real Messages end to end, "
-                   "with identical repeats and templatable / non-templatable Messages in the menu; the zlib history dependence is model-checked separately (GwCodecHistory) and bound by the random runs with level changes (bin_lvl) and the directed case of F41, not by generated behaviours",
+                   "with identical repeats and templatable / non-templatable Messages in the menu; the zlib history dependence is model-checked separately (GwCodecHistory) and bound by the random runs with level changes (bin_lvl, tpl_lvl) and the directed case of F41, not by generated behaviours",
                    "TLC instances: 2-3 Messages per behaviour in the exhaustive graphs (6 in the simulated ones), header 2-3 units, scratch 5-6 units; the real constants 8 / 2048 are used by GwBinaryTrace on recorded runs and by the concretisation of the behaviours",
                    "on a templating connection the random runs do not queue a Message whose template id equals that of an earlier Message of another layout while known finding F42 is open (the skipped Messages are counted)",
-                   "the outgoing encoding of a templating sender stays fixed during a connection while known finding F41 is open (level changes of the plain MessageIOGateway are run)",
                    "raw and SLIP chunks of length 0 are generated only as the LAST chunk of a Message (known finding F12 otherwise); WebSocket without a slave gateway is driven with non-empty chunks only",
                    "granularity as each gateway documents itself: whole Messages (binary, templating, WebSocket with slave, mini / micro), text lines, non-empty chunks (SLIP, WebSocket without slave), the byte stream (raw; with a minimum chunk size up to min-1 bytes stay behind)",
                    "DoOutput / DoInput return values and the exact number of Write() / Read() calls are algorithm-level (DRIFT), not part of the property as stated"]
